@@ -69,9 +69,9 @@ def build_mmdump(debug=False):
         shutil.copytree(src, dst, ignore=shutil.ignore_patterns('target'))
         mf = os.path.join(dst, 'Cargo.toml')
         with open(mf) as f:
-            t = f.read()
+            manifest = f.read()
         with open(mf, 'w') as f:
-            f.write(t.replace('"/repo/', '"%s/' % REPO.rstrip('/')))
+            f.write(manifest.replace('"/repo/', '"%s/' % REPO.rstrip('/')))
         src = dst
     r = subprocess.run(['cargo', 'build', '--offline'] + ([] if debug else ['--release']), cwd=src,
                        env=env, capture_output=True, text=True)
